@@ -38,6 +38,12 @@ set_log_level(logging.ERROR)
 
 import warnings  # noqa: E402
 warnings.simplefilter('ignore')      # numpy RuntimeWarnings of sensor scalings on arbitrary data
+if os.environ.get('VERIF_OPTIMIZE') == '1':
+    # the secondary pass also runs with "warnings as errors" for deprecated APIs used from inside nptdms (what a project
+    # with filterwarnings = error, or the next Python release, makes of them); the one deprecation the pinned tree already
+    # triggers with the installed numpy is exempt
+    warnings.filterwarnings('error', category=DeprecationWarning, module=r'nptdms(\..*)?$')
+    warnings.filterwarnings('ignore', message='Setting the dtype on a NumPy array has been deprecated', category=DeprecationWarning)
 np.seterr(all='ignore')
 
 
